@@ -1201,6 +1201,18 @@ func (g *gen) hostile(plain []string, index int) {
 		f := special(p, uid("empty"), clBad+"empty")
 		must(os.WriteFile(f.Abs, nil, 0o644))
 	}
+	// a file without a single function, method or literal that parses but does not type-check,
+	// alone in its package: no function list could hide that it was never analysed
+	{
+		p := bad(filepath.Join(plain[8], "decls"))
+		f := special(p, uid("declonly"), clBad+"type:declarations-only")
+		body := []string{
+			"package decls\n\nconst Port int = \"8080\"\n\ntype Settings struct {\n\tName string\n\tPort int\n}\n",
+			"package decls\n\nvar Retries int = \"three\"\n\nvar Names = []string{\"a\", \"b\"}\n",
+			"package decls\n\ntype Level int\n\nconst (\n\tLow Level = iota\n\tHigh\n)\n\nvar Default Level = undefinedLevel\n",
+		}[(index+int(g.seed))%3]
+		must(os.WriteFile(f.Abs, []byte(body), 0o644))
+	}
 	// a broken file sharing a package with good files: the siblings are observed, not judged
 	// beyond "error or everything listed"
 	{
